@@ -808,30 +808,32 @@ def check_program(prog: Dict[str, Any], stats: Optional[Dict[str, int]] = None) 
     written (a word was split) -> one `parse` fingerprint; (b) the same program with neutral label names passes
     every verdict -> the fingerprint names the spelling class instead of the statement shape."""
     viols = _check_program(prog, stats)
+    if not viols:
+        return viols
+    first = viols[0]
+    classes = sorted({name_class(ln["label"]) for ln in prog["lines"] if ln.get("label")} - {"generated"})
+    if classes or has_mnemonic_like_label(prog):
+        why = misread(prog, render_program(prog, split_pairs=True)[0])
+        if why:
+            if stats is not None:
+                stats["word-split"] = stats.get("word-split", 0) + 1
+            return [Violation("parse", WHERE_MISREAD, SYMPTOM_MISREAD, prog,
+                              f"{why}; first consequence: {first.subcheck} / {first.where} / {first.symptom}: "
+                              f"{first.detail}"[:600])]
     cfg = config_of(prog)
-    if viols and cfg:
-        # The same program under plain `Assembler()` (stock map: another layout, judged by the same model).  If it
-        # is still a program of the generated domain and passes every verdict there, the violation is named after
-        # the configuration class instead of the statement shape; otherwise the fingerprint stays as it is.
+    if cfg and first.symptom != "label takes the address set by the following directive":
+        # The same program under plain `Assembler()` (stock map: another layout, judged by the same model).  Only if
+        # it is still a program of the generated domain, ASSEMBLES there and passes every verdict, the violation is
+        # named after the configuration class instead of the statement shape; otherwise (and for a label in front
+        # of a location directive, whose known misplacement the stock bases can hide) the fingerprint stays.
         stock = dict(prog, asm=None)
-        if in_domain(stock) and not _check_program(stock):
-            first = viols[0]
+        st_stats: Dict[str, int] = {}
+        if in_domain(stock) and not _check_program(stock, st_stats) and st_stats.get("assembled"):
             if stats is not None:
                 stats["configuration-specific"] = stats.get("configuration-specific", 0) + 1
             return [Violation(first.subcheck, "assembler configuration: " + config_class(cfg), first.symptom, prog,
                               f"{first.where}: {first.detail}; the same program passes every verdict on a plain "
                               f"Assembler()"[:600])]
-    classes = sorted({name_class(ln["label"]) for ln in prog["lines"] if ln.get("label")} - {"generated"})
-    if not viols or not (classes or has_mnemonic_like_label(prog)):
-        return viols
-    first = viols[0]
-    why = misread(prog, render_program(prog, split_pairs=True)[0])
-    if why:
-        if stats is not None:
-            stats["word-split"] = stats.get("word-split", 0) + 1
-        return [Violation("parse", WHERE_MISREAD, SYMPTOM_MISREAD, prog,
-                          f"{why}; first consequence: {first.subcheck} / {first.where} / {first.symptom}: "
-                          f"{first.detail}"[:600])]
     if classes and not _check_program(with_generated_names(prog)):
         single = [c for c in classes if not _check_program(with_generated_names(prog, [c]))]
         where = "label spelled like: " + (single[0] if single else "several reserved-looking words")
